@@ -403,6 +403,21 @@ edit('frontend/cs/r1cs/api.go',[('''		return builder.mulConstant(v1, n2, !first)
 		return builder.mulConstant(v1, n2, inPlace)''')])
 save('benign-argalias-flag','C04','frontend/cs/r1cs/api.go','in-place flag computed as first == false through a local')
 m('predagree-bn254-g2','C16',['PRED-AGREE'],'std/algebra/emulated/sw_bn254/pairing.go','''	isInSubgroup := pr.g2.IsEqual(Q, _Q)''','''	isInSubgroup := pr.g2.IsEqual(_Q, _Q)''',note='IsOnG2 compares the short-vector image with itself instead of with Q')
+m('flowmust-decoder-sum','C14',['FLOW-MUST'],'std/selector/multiplexer.go','''	api.AssertIsEqual(indicatorsSum, 1)
+	return indicators''','''	if len(indicators) > 1 {
+		api.AssertIsEqual(indicatorsSum, 1)
+	}
+	return indicators''',note='the one-hot sum assertion of the decoder made conditional')
+edit('std/selector/multiplexer.go',[('''	api.AssertIsEqual(indicatorsSum, 1)
+	return indicators
+}''','''	assertOneHot(api, indicatorsSum)
+	return indicators
+}
+
+func assertOneHot(api frontend.API, sum frontend.Variable) {
+	api.AssertIsEqual(sum, 1)
+}''')])
+save('benign-flowmust-helper','C14','std/selector/multiplexer.go','the one-hot sum assertion extracted into a helper called unconditionally')
 json.dump({'comment':'selftest mutants: each patch breaks one rule instance and must be detected by the listed rule(s) of its property; produced by tools/make_selftest.py','mutants':M}, open(os.path.join(root,'selftest','mutants.json'),'w'), indent=1)
 subprocess.run(['git','-C','/repo','worktree','remove','--force',WT],capture_output=True)
 print(len(M),'mutants')
